@@ -30,7 +30,7 @@ ASSUMPTIONS = []
 def run(F, R, tier):
     rs = F.body("graph::Builder::resolve_pending_jsr_specifiers")
     # ---------------- C07-a ------------------------------------------------
-    mm = [n for n in walk(rs["body"]) if n["k"] == "Match" and any(callee_matches(x, ["JsrPackageVersionInfo::export"]) for x in walk(n["scrut"])) or (n["k"] == "Match" and expr_text(n["scrut"]) == "maybe_export")]
+    mm = [n for n in walk(rs["body"]) if n["k"] == "Match" and any(mentions_call(y, ["JsrPackageVersionInfo::export"]) for y in through_locals(n["scrut"]))]
     if R.ob("C07-a", "export lookup match found", len(mm) == 1, "shape changed (%d candidates)" % len(mm), rs["file"]):
         m = mm[0]
         for arm in m["arms"]:
@@ -46,7 +46,7 @@ def run(F, R, tier):
                 for r in ri:
                     k = peel_value(r["args"][0])
                     v = peel_value(r["args"][1])
-                    R.ob("C07-a", "redirect goes from the jsr: specifier of the request", k.get("k") == "Field" and k["field"] == "specifier" and "resolution_item" in expr_text(k["e"]), "redirect key is `%s`" % expr_text(r["args"][0]), where(r))
+                    R.ob("C07-a", "redirect goes from the jsr: specifier of the request", k.get("k") == "Field" and k["field"] == "specifier" and k.get("adt") == "graph::PendingJsrNvResolutionItem", "redirect key is `%s`" % expr_text(r["args"][0]), where(r))
                     # value = base_url.join(export_value)
                     ok = False
                     src = v
@@ -66,7 +66,7 @@ def run(F, R, tier):
                     if joins:
                         j = joins[0]
                         base = peel_value(j["recv"])
-                        ok = base.get("name") == "base_url" and "export_value" in expr_text(j["args"][0])
+                        ok = any(mentions_call(y, ["JsrUrlProvider::package_url"]) for y in through_locals(base)) and peel_value(j["args"][0]).get("res") == "local" and tyc(F, j["args"][0], "str")
                     R.ob("C07-a", "redirect target is <package url>.join(<export value from the manifest>)", ok, "redirect value `%s` is not base_url.join(export_value)" % expr_text(r["args"][1]), where(r))
                     ld = [n for n in walk(arm["body"]) if callee_matches(n, ["Builder::load"])]
                     for l in ld:
@@ -77,7 +77,7 @@ def run(F, R, tier):
                             R.ob("C07-a", "the load carries the version manifest", ctor_of(peel(f["maybe_version_info"])) == "std::option::Option::Some", "maybe_version_info = %s: files of the package would load without manifest checksums" % expr_text(f["maybe_version_info"]), where(l))
                 ae = [n for n in walk(arm["body"]) if callee_matches(n, ["PackageSpecifiers::add_export"])]
                 for a in ae:
-                    R.ob("C07-a", "export bookkeeping is for the selected nv", peel_value(a["args"][0]).get("name") == "nv", "add_export nv arg = %s" % expr_text(a["args"][0]), where(a))
+                    R.ob("C07-a", "export bookkeeping is for the selected nv", (peel_value(a["args"][0]).get("res") == "local" and any(y.get("k") == "MethodCall" and y["name"] == "nv" for z in through_locals(a["args"][0]) for y in walk(z))), "add_export nv arg = %s" % expr_text(a["args"][0]), where(a))
                     ens = [n for n in rs["_nodes"] if callee_matches(n, ["PackageSpecifiers::ensure_package"]) and may_reach(F, n, a, scope=None)]
                     g = guards_at(F, a)
                     dom = [n for n in ens if not guards_differ(F, n, a)]
@@ -88,7 +88,7 @@ def run(F, R, tier):
                         "None arm does not store an UnknownExport error entry", where(arm["body"])):
                     f = {x["name"]: x["e"] for x in ue[0]["fields"]}
                     R.ob("C07-a", "the error lists the manifest's exports", any(callee_matches(x, ["JsrPackageVersionInfo::exports"]) for x in walk(f["exports"])), "exports = %s" % expr_text(f["exports"])[:60], where(ue[0]))
-                    R.ob("C07-a", "the error names the requested export", "export_name" in expr_text(f["export_name"]), "export_name = %s" % expr_text(f["export_name"]), where(ue[0]))
+                    R.ob("C07-a", "the error names the requested export", any(y.get("k") == "MethodCall" and y["name"] == "export_name" for z in through_locals(peel_value(f["export_name"]) if peel_value(f["export_name"]).get("k") != "MethodCall" else peel_value(peel_value(f["export_name"])["recv"])) for y in walk(z)) or any(y.get("k") == "MethodCall" and y["name"] == "export_name" for y in walk(f["export_name"])), "export_name = %s" % expr_text(f["export_name"]), where(ue[0]))
 
     # ---------------- C07-b ------------------------------------------------
     lw = F.body("graph::Builder::load_with_redirect_count")
@@ -107,7 +107,7 @@ def run(F, R, tier):
     sc = []
     for r in rets:
         g = guards_at(F, r)
-        if any(x.kind == "pat" and x.pol and "module_slots" in expr_text(x.scrut) for x in g) and any(x.kind == "cond" and not x.pol and "should_reload_immediately" in expr_text(x.node) for x in g):
+        if any(x.kind == "pat" and x.pol and mentions_field(x.scrut, "module_slots") for x in g) and any(x.kind == "cond" and not x.pol and any(mentions_call(y, ["ModuleSlot::was_external_asset_load"]) for y in through_locals(x.node)) for x in g):
             sc.append(r)
     if R.ob("C07-b", "already-loaded short-circuit found", len(sc) == 1, "shape changed", lw["file"]):
         r = sc[0]
@@ -118,8 +118,15 @@ def run(F, R, tier):
         ok = False
         if marks:
             g = guards_at(F, marks[0], stop_at=blk)
-            conds_ok = any(x.kind == "pat" and x.pol and set(re.findall(r"'(\w+)'", pat_text(x.pat))) == {"jsr", "npm"} and "original_specifier" in expr_text(x.scrut) for x in g)
-            others = [x for x in g if x.kind == "cond" and not (x.node.get("k") == "Match" and "matches" in (x.node.get("mac") or []) and "original_specifier" in expr_text(x.node["scrut"]))]
+            def is_given_specifier(e):
+                # `<local>.scheme()` where the local is the specifier as given by the caller (options.specifier), not the redirect-mapped one
+                e = peel(e)
+                if not (e.get("k") == "MethodCall" and e["name"] == "scheme"):
+                    return False
+                chain = through_locals(peel_value(e["recv"]))
+                return any(peel_value(y).get("k") == "Field" and peel_value(y)["field"] == "specifier" and peel_value(y).get("adt") == "graph::LoadOptionsRef" for y in chain) and not any(mentions_field(y, "redirects") for y in chain)
+            conds_ok = any(x.kind == "pat" and x.pol and set(re.findall(r"'(\w+)'", pat_text(x.pat))) == {"jsr", "npm"} and is_given_specifier(x.scrut) for x in g)
+            others = [x for x in g if x.kind == "cond" and not (x.node.get("k") == "Match" and "matches" in (x.node.get("mac") or []) and is_given_specifier(x.node["scrut"]))]
             ok = conds_ok and not others
         R.ob("C07-b", "an already-loaded jsr:/npm: specifier is still attributed to the new importer", ok,
              "the existing-slot short-circuit returns without mark_*_dep for jsr:/npm: specifiers (or only under extra conditions): a second package importing the same jsr: specifier gets no dependency entry", where(r))
@@ -138,7 +145,7 @@ def run(F, R, tier):
                         c = [x for x in walk(d[1]) if callee_matches(x, ["JsrUrlProvider::package_url_to_nv"])]
                         if c:
                             arg = peel_value(c[0]["args"][0])
-                            ok = arg.get("k") == "Field" and arg["field"] == "specifier" and "range" in expr_text(arg["e"])
+                            ok = arg.get("k") == "Field" and arg["field"] == "specifier" and arg.get("adt") == "graph::Range"
             R.ob("C07-b", "%s attributes to the package owning the importing module's URL" % fn.split("::")[-1], ok, "nv argument `%s` is not package_url_to_nv(&range.specifier)" % expr_text(a["args"][0]), where(a))
     # every resolved dependency edge is attributed with its *own* range: either
     # it is loaded right away with that range, or (parked dynamic branches,
@@ -187,7 +194,7 @@ def run(F, R, tier):
 
     # ---------------- C07-c ------------------------------------------------
     rp = F.body("graph::Builder::resolve_pending")
-    ifs = [n for n in rp["_nodes"] if n["k"] == "If" and n["cond"].get("k") == "Let" and "loaded_package_via_https_url" in expr_text(n["cond"]["init"])]
+    ifs = [n for n in rp["_nodes"] if n["k"] == "If" and n["cond"].get("k") == "Let" and tyc(F, n["cond"]["init"], "graph::LoadedJsrPackageViaHttpsUrl")]
     if R.ob("C07-c", "https-registry bookkeeping found", len(ifs) == 1, "shape changed", rp["file"]):
         bad, _ = must_pass(F, ifs[0]["then"], lambda n: callee_matches(n, ["PackageSpecifiers::ensure_package"]), exit_kinds=("fallthrough", "return", "break", "continue"))
         R.ob("C07-c", "a package reached through an https registry URL is registered", not bad, "a path skips ensure_package for a package loaded via its https URL: later add_dependency for its modules would panic", where(ifs[0]))
@@ -199,14 +206,14 @@ def run(F, R, tier):
     ok = False
     for s_ in sp:
         r, a = peel_value(s_["recv"]), peel_value(s_["args"][0])
-        if r.get("k") == "MethodCall" and r["name"] == "as_str" and peel_value(r["recv"]).get("name") == "url" and a.get("k") == "MethodCall" and a["name"] == "as_str" and peel_value(a["recv"]).get("name") == "registry_url":
+        if r.get("k") == "MethodCall" and r["name"] == "as_str" and a.get("k") == "MethodCall" and a["name"] == "as_str" and [p_.get("lid") for p_ in un["body"]["params"]] == [peel_value(a["recv"]).get("lid"), peel_value(r["recv"]).get("lid")]:
             # and a failed prefix match ends the conversion
             ok = s_["_p"].get("k") == "Try"
     R.ob("C07-e", "a URL is attributed to a package only if the whole registry URL (scheme, authority, path) is its prefix", ok,
          "recommended_registry_package_url_to_nv no longer requires `url.as_str()` to start with `registry_url.as_str()`: look-alike URLs (other scheme, port or user-info) would be attributed to the registry package and load without its manifest checksums", un["file"])
     pu = F.body("source::recommended_registry_package_url")
     j = [n for n in pu["_nodes"] if n.get("k") == "MethodCall" and (n.get("fn") or "").endswith("Url::join")]
-    R.ob("C07-e", "the package URL is the registry URL joined with name/version/", len(j) == 1 and peel_value(j[0]["recv"]).get("name") == "registry_url", "package url construction changed", pu["file"])
+    R.ob("C07-e", "the package URL is the registry URL joined with name/version/", len(j) == 1 and peel_value(j[0]["recv"]).get("lid") == pu["body"]["params"][0].get("lid"), "package url construction changed", pu["file"])
 
     # ---------------- C07-d ------------------------------------------------
     an = F.body("packages::PackageSpecifiers::add_nv")
